@@ -500,6 +500,12 @@ impl PolicySet {
                 .ok_or_else(|| LinkingError::NoSuchTemplate {
                     id: template_id.clone(),
                 })?;
+        // The body of a static policy is stored as a slot-less template under the policy's own id.
+        // It is not a template one can link against: the link would lose its template as soon as
+        // the static policy is removed (`remove_static`), and `unlink` would then panic.
+        if t.is_static() && self.links.contains_key(&template_id) {
+            return Err(LinkingError::NoSuchTemplate { id: template_id });
+        }
         let r = Template::link(t, new_id.clone(), values)?;
 
         // Both maps must not contain the `new_id`
